@@ -243,12 +243,13 @@ fn all_transitions() -> Vec<OrientCase> {
     let mut out = Vec::new();
     for a in Orient::ALL {
         for b in Orient::ALL {
-            for (bgr, rv, rh) in [(false, false, false), (true, true, true), (true, false, true)] {
+            for (bgr, rv, rh, geom) in [(false, false, false, (4, 3, 2, 1)), (true, true, true, (4, 3, 2, 1)), (true, false, true, (4, 3, 2, 1)), (false, true, false, (3, 3, 2, 1)), (false, false, false, (5, 1, 1, 2))] {
                 let mut cfg = Config::full(crate::models::ModelId::E7x5, Transport::Rec8);
-                cfg.w = 4;
-                cfg.h = 3;
-                cfg.ox = 2;
-                cfg.oy = 1;
+                // (3,3,2,1) and (5,1,1,2) are centred on both axes of the 7x5 framebuffer with different margins per axis
+                cfg.w = geom.0;
+                cfg.h = geom.1;
+                cfg.ox = geom.2;
+                cfg.oy = geom.3;
                 cfg.orient = a;
                 cfg.bgr = bgr;
                 cfg.refresh_v = rv;
@@ -260,7 +261,7 @@ fn all_transitions() -> Vec<OrientCase> {
                         ops.push(DrawOp::SetPixel { x, y, seed: (y as u32) * 16 + x as u32 });
                     }
                 }
-                ops.push(DrawOp::FillSolid { rect: Rect { x: -1, y: 1, w: 3, h: 5 }, seed: 9 });
+                ops.push(DrawOp::FillSolid { rect: Rect { x: -1, y: lh as i32 - 1, w: 3, h: 5 }, seed: 9 });
                 ops.push(DrawOp::DrawIter { pts: vec![(0, 0), (lw as i32, 0), (lw as i32 - 1, lh as i32 - 1), (0, lh as i32)], seed: 11 });
                 out.push(OrientCase { cfg, seq: vec![b], ops });
             }
@@ -291,7 +292,7 @@ pub fn run(ctx: &Ctx) -> Report {
     rep.assumptions = vec!["the twin display is built from scratch with the last orientation and otherwise identical options".into()];
     let mut sec = Section::new(
         &format!("all-transitions[{}]", ctx.variant),
-        "all 8x8 (initial, new) orientation pairs x 3 colour/refresh option sets on a 4x3 window at (2,1) of a 7x5 framebuffer, followed by clear + every pixel + clipped fill + clipped draw_iter; non-trivial = rotation parity or mirroring changes",
+        "all 8x8 (initial, new) orientation pairs x 5 option/geometry sets (4x3 window at (2,1), and the centred 3x3 at (2,1) and 5x1 at (1,2) of a 7x5 framebuffer), followed by clear + every pixel + clipped fill + clipped draw_iter; non-trivial = rotation parity or mirroring changes",
     );
     sec.exhaustive = true;
     run_enumerated(&mut sec, all_transitions(), ctx.workers, check, sig);
